@@ -2,6 +2,7 @@ import Driver.Util
 import Driver.X86
 import Driver.Arm
 import Driver.Hist
+import Driver.Counter
 namespace Driver
 
 def dispatch (line : String) : String :=
@@ -21,6 +22,9 @@ def dispatch (line : String) : String :=
       | "a32patch" => handleA32Patch args obs
       | "hist" => handleHist rest
       | "cycles" => handleCycles args obs
+      | "cnt" => handleCnt args obs
+      | "cnthammer" => handleHammer args obs
+      | "life" => handleLife args obs
       | _ => bad ("unknown-tag:" ++ tag)
     v.render
 
